@@ -429,6 +429,9 @@ pub trait Ind: Send + Sync {
     fn next_item(&mut self, b: &DataItem) -> Out;
     fn reset(&mut self);
     fn clone_box(&self) -> Box<dyn Ind>;
+    fn as_any(&self) -> &dyn std::any::Any;
+    /// `Clone::clone_from(self, src)`; false when `src` is not the same concrete type
+    fn assign_from(&mut self, src: &dyn Ind) -> bool;
     fn display(&self) -> String;
     fn debug(&self) -> String;
     fn period(&self) -> Option<usize>;
@@ -463,6 +466,18 @@ macro_rules! impl_ind {
             }
             fn clone_box(&self) -> Box<dyn Ind> {
                 Box::new(self.clone())
+            }
+            fn as_any(&self) -> &dyn std::any::Any {
+                self
+            }
+            fn assign_from(&mut self, src: &dyn Ind) -> bool {
+                match src.as_any().downcast_ref::<$ty>() {
+                    Some(s) => {
+                        Clone::clone_from(self, s);
+                        true
+                    }
+                    None => false,
+                }
             }
             fn display(&self) -> String {
                 format!("{}", self)
@@ -673,6 +688,8 @@ pub enum Op {
     SerDeSwap,
     /// replace the instance by its clone and drop the original
     CloneSwap,
+    /// `used_instance.clone_from(self)`, then the used instance replaces self
+    CloneFromSwap,
 }
 
 impl Op {
@@ -691,6 +708,7 @@ impl Op {
             Op::Ser => json!({"op": "ser"}),
             Op::SerDeSwap => json!({"op": "serde_swap"}),
             Op::CloneSwap => json!({"op": "clone_swap"}),
+            Op::CloneFromSwap => json!({"op": "clone_from_swap"}),
         }
     }
     pub fn from_json(v: &Value) -> Option<Op> {
@@ -708,6 +726,7 @@ impl Op {
             "ser" => Op::Ser,
             "serde_swap" => Op::SerDeSwap,
             "clone_swap" => Op::CloneSwap,
+            "clone_from_swap" => Op::CloneFromSwap,
             _ => return None,
         })
     }
@@ -1066,10 +1085,64 @@ impl Inst {
         self.record(|| Op::CloneSwap, || Res::Unit);
         Ok(())
     }
+    /// `Clone::clone_from(self, src)` at the client boundary
+    pub fn assign_from(&mut self, src: &Inst) -> Result<(), Panicked> {
+        self.calls += 1;
+        let s = src.ind.as_ref();
+        let me = self.ind.as_mut();
+        match guarded(|| me.assign_from(s)) {
+            Ok(true) => Ok(()),
+            Ok(false) => Err(Panicked("clone_from between different indicator types".into())),
+            Err(p) => {
+                self.panics += 1;
+                Err(p)
+            }
+        }
+    }
+    /// `Clone::clone_from`: a *used* instance with the same parameters (it has its own, different
+    /// history) is overwritten with a copy of self and then takes self's place.
+    pub fn clone_from_swap(&mut self) -> Result<(), Panicked> {
+        self.calls += 1;
+        let params = self.params;
+        let src = self.ind.as_ref();
+        let r = guarded(|| {
+            let mut other = construct_raw(&params).ok()?;
+            // give the receiver a history of its own first
+            for i in 0..(params.max_period().min(24) + 3) {
+                let v = 31.0 + ((i * 7) % 11) as f64;
+                if params.kind.has_scalar() {
+                    let _ = other.next_f64(v);
+                } else {
+                    let _ = other.next_bar(&Bar { o: v, h: v + 2.0, l: v - 1.0, c: v + 0.5, v: 2.0 });
+                }
+            }
+            if other.assign_from(src) {
+                Some(other)
+            } else {
+                None
+            }
+        });
+        match r {
+            Ok(Some(mut o)) => {
+                std::mem::swap(&mut self.ind, &mut o);
+                self.record(|| Op::CloneFromSwap, || Res::Unit);
+                Ok(())
+            }
+            Ok(None) => Err(Panicked("clone_from: receiver could not be built".into())),
+            Err(p) => {
+                self.panics += 1;
+                Err(p)
+            }
+        }
+    }
     /// Semantically transparent identity change (C05/C06 say outputs must not depend on it):
-    /// even `which` -> clone-and-replace, odd -> serialize/deserialize-and-replace.
+    /// `which` % 3: 0 -> clone-and-replace, 1 -> serialize/deserialize-and-replace, 2 -> clone_from into a
+    /// used instance which then takes over.
     pub fn perturb(&mut self, which: usize) -> Op {
-        if which % 2 == 0 {
+        if which % 3 == 2 {
+            let _ = self.clone_from_swap();
+            Op::CloneFromSwap
+        } else if which % 3 == 0 {
             let _ = self.clone_swap();
             Op::CloneSwap
         } else {
@@ -1110,6 +1183,7 @@ impl Inst {
             Op::Ser => r(self.ser(), |b| Res::Bytes(b.len())),
             Op::SerDeSwap => r(self.serde_swap(), |_| Res::Unit),
             Op::CloneSwap => r(self.clone_swap(), |_| Res::Unit),
+            Op::CloneFromSwap => r(self.clone_from_swap(), |_| Res::Unit),
         }
     }
     pub fn trace_json(&self) -> Value {
